@@ -147,6 +147,7 @@ type rig struct {
 	mu     sync.Mutex
 	events []eventRec
 	closed bool
+	coarse bool // the resource has an equivalence under which everything is a duplicate
 }
 
 // lowEntropy is a random source that often repeats itself: half of its reads are all zero bytes, so generated id
@@ -170,6 +171,13 @@ func newRig(r *vk.Run, model *sm.Model, initial sm.State, rng *vk.Rand) *rig {
 		src = lowEntropy{rng.Fork()}
 	}
 	opts := append(model.ResourceOptions(), resource.WithClock(&fakeClock{}), resource.WithRNG(src))
+	if rng.Chance(1, 4) {
+		// an equivalence (here: everything is equivalent) only decides what subscribers are told; what is stored and
+		// returned must be the same as without it. Event counts are not judged on such a rig.
+		g.coarse = true
+		opts = append(opts, resource.WithEquivalence(resource.ComparerFunc(func(x, y proto.Message) bool { return true })))
+		r.Count("rigs-with-an-all-equivalent-comparer", 1)
+	}
 	ctx, cancel := context.WithCancel(context.Background())
 	g.cancel = cancel
 	if model.Cfg.IsValue {
@@ -326,6 +334,8 @@ func (g *rig) step(op sm.Op, trace *[]string) bool {
 	if res.Code != codes.OK && len(evs) > 0 {
 		r.Violation(fmt.Sprintf("C01/event-after-failure/%s/%s/%s", kind, op.Kind, resClass(res)), fmt.Sprintf("%v failed with %v but %d event(s) were published\ntrace:\n%s", op, res.Code, len(evs), strings.Join(*trace, "\n")), replay)
 		ok = false
+	} else if g.coarse {
+		// nothing to judge: every event is a duplicate for the subscriber
 	} else if v.OK && len(evs) != wantN {
 		r.Violation(fmt.Sprintf("C01/event-count/%s/%s/%s", kind, op.Kind, op.Opts.Reduced()), fmt.Sprintf("%v published %d events, model says %d\ntrace:\n%s", op, len(evs), wantN, strings.Join(*trace, "\n")), replay)
 		ok = false
